@@ -372,6 +372,12 @@ func c20Settle(r *sysRun, busy bool) {
 		c.count("settle.one_off", 1)
 		return
 	}
+	// ... and it was left to run: a command that fzf has killed is one it took for superseded - but nothing
+	// came after this one, the window is up and shows its line
+	if !busy && last.Killed && len(st.Matches) > 0 {
+		c.violate("c20.killed_current", "the preview command that ran last (%q, for the line under the cursor) was killed by fzf %v after its start and nothing was started in its place; it had printed %q", last.Command, last.KilledAt-last.Started, clip([]byte(last.Emitted.String())))
+		return
+	}
 	// argv of the command that ran last must describe the state at settle
 	w := shWords(last.Command)
 	if len(w) > 1 && strings.HasPrefix(w[1], os.TempDir()) {
